@@ -1,13 +1,871 @@
 //! Cases and evaluation for C12..C14, C16..C20.
 
-use crate::mon::{Obs, Violation};
+use crate::exec::{run, run_frag, ExecOpts};
+use crate::gen::frag::{gen_frag_history, FragOpts};
+use crate::gen::frames::*;
+use crate::gen::hist::{gen_cfg, gen_history, gen_history_for, GenOpts};
+use crate::hist::*;
+use crate::mon::c07::Side;
+use crate::mon::c12::FreeOp;
+use crate::mon::c20::{CliCase, FileSpec};
+use crate::mon::{self, Analysis, Obs, Violation};
 use crate::run::{Case, Tier};
 use crate::util::Rng;
 
-pub fn gen_case2(_prop: &str, _tier: Tier, _seed: u64, _idx: u64, _r: &mut Rng) -> Option<Case> {
-    None
+const DAYS_TO_9999: u64 = 2_932_897;
+const DAY_CHUNK: u64 = 2048;
+const LANG_CHUNK: u64 = 512;
+const STR_CHUNK: u64 = 4096;
+
+fn c14_layout() -> (u64, u64, u64) {
+    let n5 = (mon::c14::space_size(5, mon::c14::AB5_MAXLEN) + STR_CHUNK - 1) / STR_CHUNK;
+    let n3 = (mon::c14::space_size(3, mon::c14::AB3_MAXLEN) + STR_CHUNK - 1) / STR_CHUNK;
+    // ADTS: 2 protection modes x 4 buffer deltas x 16 chunks of 512 frame lengths
+    (n5, n3, 2 * 4 * 16)
 }
 
-pub fn eval_case2(_prop: &str, _case: &Case, _obs: &mut Obs) -> Vec<Violation> {
-    Vec::new()
+pub fn c14_enumeration_cases() -> u64 {
+    let (a, b, c) = c14_layout();
+    a + b + c
+}
+
+fn hostile_meta(r: &mut Rng, cfg: &mut Cfg) {
+    cfg.meta = true;
+    cfg.path = if r.chance(1, 2) { 4 } else { 0 };
+    if r.chance(1, 2) {
+        cfg.title = Some(match r.below(4) {
+            0 => String::new(),
+            1 => "x".repeat(100_000),
+            2 => "\u{0}\u{10FFFF}\u{FEFF}".repeat(7),
+            _ => crate::gen::hist::titles(r),
+        });
+    }
+    if r.chance(2, 3) {
+        cfg.ctime = Some(*r.pick(&[0u64, 1, 86_399, 86_400, 951_782_400, 4_102_444_800, 253_402_300_799, 253_402_300_800, 1 << 40, 1 << 53, u64::MAX / 2, u64::MAX - 1, u64::MAX]));
+    }
+    if r.chance(2, 3) {
+        cfg.lang = Some(match r.below(8) {
+            0 => String::new(),
+            1 => "e".into(),
+            2 => "en".into(),
+            3 => "ENG".into(),
+            4 => "engl".into(),
+            5 => "日本語".into(),
+            6 => "\u{0}\u{0}\u{0}".into(),
+            _ => "~{}".into(),
+        });
+    }
+}
+
+pub fn gen_case2(prop: &str, tier: Tier, _seed: u64, idx: u64, r: &mut Rng) -> Option<Case> {
+    let thorough = tier == Tier::Thorough;
+    Some(match prop {
+        "C12" => match r.below(20) {
+            0..=8 => {
+                let o = GenOpts { hostile_pct: 50, hostile_cfg_pct: 25, reorder_pct: 30, audio_pct: 70, meta_pct: 30, encode_pct: 35, finish_games: true, max_video: 8, max_audio: 8, ..Default::default() };
+                let mut cfg = gen_cfg(r, &o);
+                if r.chance(1, 3) {
+                    hostile_meta(r, &mut cfg);
+                }
+                if r.chance(1, 30) {
+                    cfg.video = false;
+                }
+                if r.chance(1, 10) {
+                    cfg.fps_bits = (*r.pick(&[0.0f64, -1.0, f64::NAN, f64::INFINITY, 1e300])).to_bits();
+                }
+                Case::Hist { h: gen_history_for(r, &o, cfg), side: Side::default() }
+            }
+            9..=13 => {
+                let o = FragOpts { hostile_cfg: true, hostile_values: true, bad_dts_pct: 15, constant_interval_pct: 5, max_ops: 30, ..Default::default() };
+                let (mut h, side) = gen_frag_history(r, &o);
+                if r.chance(1, 6) {
+                    // builder without the codec parameters
+                    h.cfg.via_builder = true;
+                    match r.below(4) {
+                        0 => h.cfg.sps = None,
+                        1 => h.cfg.pps = None,
+                        2 => h.cfg.vps = None,
+                        _ => {
+                            h.cfg.av1_seq = None;
+                            h.cfg.vp9 = None;
+                        }
+                    }
+                }
+                if r.chance(1, 6) {
+                    // hostile sequence header / parameter sets handed to the builder
+                    let n = r.range(0, 40) as usize;
+                    h.cfg.av1_seq = h.cfg.av1_seq.as_ref().map(|s| hostile_bytes(r, s)).or(Some(r.bytes(n)));
+                }
+                h.cfg.lang = if r.chance(1, 4) { Some("日本".into()) } else { None };
+                Case::Frag { h, side: Side { av1: side, vp9: None } }
+            }
+            _ => {
+                let codec = r.below(4) as u8;
+                let kind = *r.pick(&[FrameKind::KeyCfg, FrameKind::KeyNoCfg, FrameKind::Delta]);
+                let valid = video_frame(r, codec, kind, 24, true);
+                let data = if r.chance(1, 5) { valid.clone() } else { hostile_bytes(r, &valid) };
+                match r.below(6) {
+                    0 | 1 => Case::Free(FreeOp::CodecBytes { data, from: r.below(40) as usize }),
+                    2 => Case::Free(FreeOp::ValidateVideoFrame { codec, data, key: r.chance(1, 2) }),
+                    3 => {
+                        let a = AudioCfg { kind: if r.chance(1, 2) { 7 } else { 1 }, rate: 48_000, channels: 2 };
+                        let good = audio_frame(r, &a, 12);
+                        let d = if r.chance(1, 3) { good } else { hostile_bytes(r, &good) };
+                        Case::Free(FreeOp::ValidateAudioFrame { kind: *r.pick(&[0u8, 1, 3, 7]), data: d })
+                    }
+                    4 => Case::Free(FreeOp::ValidateConfigs {
+                        codec,
+                        w: *r.pick(&[0u32, 1, 319, 320, 4096, 4097, u32::MAX]),
+                        h: *r.pick(&[0u32, 239, 240, 2160, 2161, u32::MAX]),
+                        fps_bits: (*r.pick(&[0.0f64, -1.0, 30.0, 120.0, 120.1, f64::NAN, f64::INFINITY])).to_bits(),
+                        akind: *r.pick(&[0u8, 1, 7]),
+                        rate: *r.pick(&[0u32, 1, 48_000, 192_000, 192_001, u32::MAX]),
+                        ch: *r.pick(&[0u8, 1, 8, 9, 255]),
+                        vframe: data,
+                        aframe: r.bytes_range(0, 12),
+                        partial: r.byte(),
+                    }),
+                    _ => Case::Free(FreeOp::Values { a: r.byte(), b: r.byte(), c: r.next_u64() as u16, s: crate::gen::hist::titles(r) }),
+                }
+            }
+        },
+        "C13" => {
+            // representative histories: shape chosen by index so that every layout is covered
+            let shape = idx % 12;
+            let o = GenOpts { hostile_pct: 0, reorder_pct: if shape % 3 == 2 { 100 } else { 0 }, audio_pct: if shape % 2 == 1 { 100 } else { 0 }, meta_pct: if shape % 4 >= 2 { 100 } else { 0 }, encode_pct: 0, consuming: false, max_video: if shape == 0 { 1 } else { 6 }, max_audio: 6, big_frames: thorough && shape == 11, ..Default::default() };
+            let mut h = gen_history(r, &o);
+            if shape == 4 {
+                // zero-frame file
+                h.ops.retain(|op| op.is_finish());
+            }
+            h.cfg.fast_start = Some(shape < 6);
+            // after the (first) finish, call every kind of entry point again
+            let kf = video_frame(r, h.cfg.vcodec, FrameKind::KeyCfg, 8, false);
+            h.ops.retain(|op| !op.is_finish());
+            h.ops.push(Op::Finish(FinishKind::InPlaceStats));
+            h.ops.push(Op::Finish(FinishKind::InPlace));
+            h.ops.push(Op::wv(1e6, kf.clone(), true));
+            h.ops.push(Op::wvd(1e6 + 1.0, 1e6 + 1.0, kf.clone(), true));
+            h.ops.push(Op::EncodeVideo { data: kf, dur_ms: 33 });
+            if let Some(a) = h.cfg.audio_effective().cloned() {
+                h.ops.push(Op::wa(1e6, audio_frame(r, &a, 8)));
+                h.ops.push(Op::EncodeAudio { data: audio_frame(r, &a, 8), samples: 1024 });
+            }
+            h.ops.push(Op::Finish(FinishKind::InPlaceStats));
+            Case::FaultAll { h, level: thorough as u8 }
+        }
+        "C14" => {
+            let (n5, n3, na) = c14_layout();
+            if idx < n5 {
+                Case::Enum { what: "ab5".into(), lo: idx * STR_CHUNK, hi: ((idx + 1) * STR_CHUNK).min(mon::c14::space_size(5, mon::c14::AB5_MAXLEN)) }
+            } else if idx < n5 + n3 {
+                let k = idx - n5;
+                Case::Enum { what: "ab3".into(), lo: k * STR_CHUNK, hi: ((k + 1) * STR_CHUNK).min(mon::c14::space_size(3, mon::c14::AB3_MAXLEN)) }
+            } else if idx < n5 + n3 + na {
+                let k = idx - n5 - n3;
+                let chunk = (k % 16) as u32;
+                let delta = [-1i32, 0, 1, 100][((k / 16) % 4) as usize];
+                Case::Adts { protection_absent: k / 64 == 0, delta, lo: chunk * 512, hi: (chunk + 1) * 512 }
+            } else {
+                Case::Enum { what: "constructive".into(), lo: idx, hi: idx + 64 }
+            }
+        }
+        "C16" => return Some(c16_case(r, idx)),
+        "C17" => {
+            let o = GenOpts { hostile_pct: 10, reorder_pct: 30, audio_pct: 60, meta_pct: 40, encode_pct: 25, consuming: true, max_video: 8, max_audio: 8, ..Default::default() };
+            match idx % 4 {
+                0 | 1 => {
+                    let n = r.range(4, 24) as usize;
+                    let hs: Vec<History> = (0..n).map(|_| gen_history(r, &o)).collect();
+                    Case::Threads { hs, threads: *r.pick(&[1u32, 2, 4, 8, 16]), seed: r.next_u64() }
+                }
+                2 => Case::Hist { h: gen_history(r, &o), side: Side::default() },
+                _ => {
+                    // encode-only history for the convenience-path comparison
+                    let mut o2 = o.clone();
+                    o2.encode_pct = 100;
+                    o2.reorder_pct = 0;
+                    o2.nonzero_start_pct = 0;
+                    o2.hostile_pct = 0;
+                    o2.audio_offset = false;
+                    Case::Hist { h: gen_history(r, &o2), side: Side { av1: None, vp9: Some(crate::model::vp9::gen_fields(r)) } }
+                }
+            }
+        }
+        "C18" => {
+            let stride = if thorough { 1 } else { 23 };
+            let day_chunks = (DAYS_TO_9999 / stride + DAY_CHUNK - 1) / DAY_CHUNK;
+            let lang_chunks = (26 * 26 * 26 + LANG_CHUNK - 1) / LANG_CHUNK;
+            if idx < lang_chunks {
+                Case::Enum { what: "langs".into(), lo: idx * LANG_CHUNK, hi: ((idx + 1) * LANG_CHUNK).min(26 * 26 * 26) }
+            } else if idx < lang_chunks + day_chunks {
+                let k = idx - lang_chunks;
+                Case::Enum { what: format!("days/{}", stride), lo: k * DAY_CHUNK, hi: ((k + 1) * DAY_CHUNK).min(DAYS_TO_9999 / stride + 1) }
+            } else {
+                let o = GenOpts { hostile_pct: 0, reorder_pct: 25, audio_pct: 60, meta_pct: 100, encode_pct: 0, consuming: false, max_video: 6, max_audio: 6, ..Default::default() };
+                let mut h = gen_history(r, &o);
+                h.cfg.meta = true;
+                if r.chance(1, 8) {
+                    h.cfg.lang = Some(match r.below(5) {
+                        0 => String::new(),
+                        1 => "EN".into(),
+                        2 => "engl".into(),
+                        3 => "é".into(),
+                        _ => "e1g".into(),
+                    });
+                }
+                if r.chance(1, 3) {
+                    h.cfg.path = 4;
+                }
+                if r.chance(1, 40) {
+                    h.cfg.title = Some("t".repeat(100_000));
+                }
+                Case::Hist { h, side: Side::default() }
+            }
+        }
+        "C19" => {
+            if idx % 3 == 2 {
+                let o = FragOpts { max_ops: 10, hostile_cfg: false, ..Default::default() };
+                let (mut h, side) = gen_frag_history(r, &o);
+                h.ops.insert(0, FOp::Init);
+                Case::Frag { h, side: Side { av1: side, vp9: None } }
+            } else {
+                let o = GenOpts { hostile_pct: 0, reorder_pct: 30, audio_pct: 65, meta_pct: 50, encode_pct: 0, consuming: false, max_video: 5, max_audio: 5, ..Default::default() };
+                let mut cfg = gen_cfg(r, &o);
+                cfg.width = *r.pick(&[1u32, 16, 320, 640, 1920, 4096, 65_535]);
+                cfg.height = *r.pick(&[1u32, 16, 240, 480, 1080, 2160, 65_535]);
+                if let Some(a) = cfg.audio.as_mut() {
+                    a.channels = *r.pick(&[1u16, 2, 2, 3, 6, 8, 255]);
+                    if !a.is_opus() {
+                        a.rate = *r.pick(&AAC_RATES);
+                    }
+                }
+                Case::Hist { h: gen_history_for(r, &o, cfg), side: Side::default() }
+            }
+        }
+        "C20" => Case::Cli(c20_case(r)),
+        _ => return None,
+    })
+}
+
+fn ticks_s(t: u64) -> f64 {
+    t as f64 / 90_000.0
+}
+
+/// Boundary scenarios: each pushes one derived quantity to within 2 of a field limit, from both sides.
+fn c16_case(r: &mut Rng, idx: u64) -> Case {
+    let mut cfg = Cfg::basic(*r.pick(&[H264, H265, AV1, VP9]));
+    cfg.fast_start = Some(r.chance(1, 2));
+    let kf = |r: &mut Rng, c: u8| video_frame(r, c, FrameKind::KeyCfg, 8, false);
+    let df = |r: &mut Rng, c: u8| video_frame(r, c, FrameKind::Delta, 6, false);
+    let eps = *r.pick(&[-2i64, -1, 0, 1, 2]);
+    let scenario = idx % 14;
+    let mut ops: Vec<Op> = Vec::new();
+    match scenario {
+        0 => {
+            // single video gap around 2^32 ticks
+            let g = ((1i64 << 32) + eps - 1) as u64;
+            let t0 = r.below(1000);
+            ops.push(Op::wv(ticks_s(t0), kf(r, cfg.vcodec), true));
+            ops.push(Op::wv(ticks_s(t0 + g), df(r, cfg.vcodec), false));
+            ops.push(Op::wv(ticks_s(t0 + g + 3000), df(r, cfg.vcodec), false));
+        }
+        1 => {
+            // audio gap around 2^32 ticks
+            cfg.audio = Some(AudioCfg { kind: 7, rate: 48_000, channels: 2 });
+            let g = ((1i64 << 32) + eps - 1) as u64;
+            ops.push(Op::wv(0.0, kf(r, cfg.vcodec), true));
+            ops.push(Op::wa(0.0, opus_packet(r, 8)));
+            ops.push(Op::wa(ticks_s(g), opus_packet(r, 8)));
+            ops.push(Op::wa(ticks_s(g + 960), opus_packet(r, 8)));
+        }
+        2 | 3 => {
+            // total duration across 2^32 ticks with k frames
+            let k = if scenario == 2 { 3u64 } else { 50 };
+            let total = ((1i64 << 32) + eps * 3 + r.range(0, 10) as i64 - 5) as u64;
+            let step = total / (k - 1);
+            for i in 0..k {
+                let f = if i == 0 { kf(r, cfg.vcodec) } else { df(r, cfg.vcodec) };
+                ops.push(Op::wv(ticks_s(i * step), f, i == 0));
+            }
+        }
+        4 => {
+            // movie duration in ms across 2^32: ~91 maximal gaps
+            let g = u32::MAX as u64 - r.below(3);
+            let n = 89 + r.below(5);
+            for i in 0..n {
+                let f = if i == 0 { kf(r, cfg.vcodec) } else { df(r, cfg.vcodec) };
+                ops.push(Op::wv(ticks_s(i * g), f, i == 0));
+            }
+        }
+        5 => {
+            // |pts - dts| across 2^31
+            let d = ((1i64 << 31) + eps - 1) as u64;
+            if r.chance(1, 2) {
+                ops.push(Op::wvd(ticks_s(d), 0.0, kf(r, cfg.vcodec), true));
+                ops.push(Op::wvd(ticks_s(d + 3000), ticks_s(3000), df(r, cfg.vcodec), false));
+            } else {
+                // negative offset: dts far ahead of pts
+                ops.push(Op::wvd(0.0, ticks_s(d + 1), kf(r, cfg.vcodec), true));
+                ops.push(Op::wvd(ticks_s(3000), ticks_s(d + 1 + 3000), df(r, cfg.vcodec), false));
+            }
+        }
+        6 => {
+            // parameter sets of 65535 / 65536 bytes inside the first keyframe (H.264 / H.265)
+            cfg.vcodec = if r.chance(1, 2) { H264 } else { H265 };
+            let big = (65_535i64 + (eps.clamp(-1, 1))) as usize;
+            let body: Vec<u8> = r.bytes(big - 1).into_iter().map(|x| x | 4).collect();
+            let mut frame = Vec::new();
+            let which = r.below(3);
+            let push = |frame: &mut Vec<u8>, hdr: &[u8], body: &[u8]| {
+                frame.extend_from_slice(&[0, 0, 0, 1]);
+                frame.extend_from_slice(hdr);
+                frame.extend_from_slice(body);
+            };
+            let small = [0x11u8, 0x22, 0x33, 0x44];
+            if cfg.vcodec == H264 {
+                // hdr is one byte: body of big-1 gives a NAL of `big` bytes
+                push(&mut frame, &[0x67], if which == 0 { &body } else { &small });
+                push(&mut frame, &[0x68], if which != 0 { &body } else { &small });
+                push(&mut frame, &[0x65], &small);
+            } else {
+                let b2 = &body[..big - 2];
+                push(&mut frame, &[0x40, 1], if which == 0 { b2 } else { &small });
+                push(&mut frame, &[0x42, 1], if which == 1 { b2 } else { &small });
+                push(&mut frame, &[0x44, 1], if which == 2 { b2 } else { &small });
+                push(&mut frame, &[0x26, 1], &small);
+            }
+            ops.push(Op::wv(0.0, frame, true));
+        }
+        7 => {
+            // dimensions 65535 / 65536
+            cfg.width = *r.pick(&[65_535u32, 65_536, 65_537, 1 << 17]);
+            cfg.height = *r.pick(&[65_535u32, 65_536, 480]);
+            ops.push(Op::wv(0.0, kf(r, cfg.vcodec), true));
+        }
+        8 => {
+            // audio channel counts / sample rates at the field limits
+            let opus = r.chance(1, 2);
+            cfg.audio = Some(AudioCfg { kind: if opus { 7 } else { 1 }, rate: *r.pick(&[65_535u32, 65_536, 96_000, 88_200, 48_000, 192_000]), channels: *r.pick(&[2u16, 255, 256, 257, 65_535]) });
+            ops.push(Op::wv(0.0, kf(r, cfg.vcodec), true));
+            let a = cfg.audio.clone().unwrap();
+            ops.push(Op::wa(0.0, audio_frame(r, &a, 8)));
+        }
+        9 => {
+            // timestamps around 2^53 and 2^64 ticks
+            let t = *r.pick(&[2f64.powi(53) / 90_000.0, 2f64.powi(53) / 90_000.0 * 1.5, 2f64.powi(64) / 90_000.0, 2f64.powi(64) / 90_000.0 * 2.0, 1e300]);
+            ops.push(Op::wv(t, kf(r, cfg.vcodec), true));
+            ops.push(Op::wv(t * 1.000_000_1 + 1.0, df(r, cfg.vcodec), false));
+        }
+        10 => {
+            // audio track longer than the video track (movie duration = longest track)
+            cfg.audio = Some(AudioCfg { kind: 7, rate: 48_000, channels: 2 });
+            ops.push(Op::wv(0.0, kf(r, cfg.vcodec), true));
+            ops.push(Op::wv(1.0 / 30.0, df(r, cfg.vcodec), false));
+            let n = r.range(3, 60);
+            for j in 0..n {
+                ops.push(Op::wa(j as f64 * 0.02 * r.range(1, 40) as f64, opus_packet(r, 8)));
+            }
+            // keep non-decreasing
+            let mut last = 0.0f64;
+            for op in ops.iter_mut() {
+                if let Op::WriteAudio { pts, .. } = op {
+                    let p = f64::from_bits(*pts).max(last);
+                    last = p;
+                    *pts = p.to_bits();
+                }
+            }
+        }
+        11 | 12 => {
+            // fragmented: DTS gap across 2^32, |pts-dts| across 2^31, dimensions, set lengths
+            let o = FragOpts { max_ops: 6, hostile_cfg: false, ..Default::default() };
+            let (mut h, side) = gen_frag_history(r, &o);
+            h.ops.clear();
+            h.ops.push(FOp::Init);
+            let which = r.below(4);
+            match which {
+                0 => {
+                    let g = ((1i64 << 32) + eps - 1) as u64;
+                    h.ops.push(FOp::Write { pts: 0, dts: 0, data: vec![1, 2, 3], sync: true });
+                    h.ops.push(FOp::Write { pts: g, dts: g, data: vec![4, 5], sync: false });
+                    h.ops.push(FOp::Write { pts: g + 10, dts: g + 10, data: vec![6], sync: false });
+                }
+                1 => {
+                    let d = ((1i64 << 31) + eps - 1) as u64;
+                    h.ops.push(FOp::Write { pts: d, dts: 0, data: vec![1, 2, 3], sync: true });
+                    h.ops.push(FOp::Write { pts: 0, dts: d + 1, data: vec![4, 5], sync: false });
+                }
+                2 => {
+                    h.cfg.width = *r.pick(&[65_535u32, 65_536, 65_537]);
+                    h.cfg.height = *r.pick(&[65_535u32, 65_536, 1080]);
+                    h.ops.push(FOp::Write { pts: 0, dts: 0, data: vec![1], sync: true });
+                }
+                _ => {
+                    let big = (65_535i64 + eps.clamp(-1, 1)) as usize;
+                    h.cfg.vcodec = if r.chance(1, 2) { H264 } else { H265 };
+                    h.cfg.av1_seq = None;
+                    h.cfg.vp9 = None;
+                    let (n1, n2, n3) = (if r.chance(1, 2) { big } else { 10 }, if r.chance(1, 2) { big } else { 5 }, if r.chance(1, 2) { big } else { 7 });
+                    h.cfg.sps = Some(r.bytes(n1));
+                    h.cfg.pps = Some(r.bytes(n2));
+                    h.cfg.vps = if h.cfg.vcodec == H265 { Some(r.bytes(n3)) } else { None };
+                    h.ops.push(FOp::Write { pts: 0, dts: 0, data: vec![1], sync: true });
+                }
+            }
+            h.ops.push(FOp::Flush);
+            return Case::Frag { h, side: Side { av1: side, vp9: None } };
+        }
+        _ => {
+            // ordinary histories: the casts must all fit
+            let o = GenOpts { hostile_pct: 0, reorder_pct: 40, audio_pct: 60, ..Default::default() };
+            return Case::Hist { h: gen_history(r, &o), side: Side::default() };
+        }
+    }
+    ops.push(Op::Finish(FinishKind::InPlaceStats));
+    Case::Hist { h: History { cfg, ops }, side: Side::default() }
+}
+
+fn hexify(r: &mut Rng, data: &[u8]) -> Vec<u8> {
+    let mut s = String::new();
+    let upper = r.chance(1, 4);
+    for (i, b) in data.iter().enumerate() {
+        if upper {
+            s.push_str(&format!("{:02X}", b));
+        } else {
+            s.push_str(&format!("{:02x}", b));
+        }
+        match r.below(12) {
+            0 => s.push(' '),
+            1 => s.push('\n'),
+            2 if i % 7 == 0 => s.push('\t'),
+            3 if i % 11 == 0 => s.push_str("\r\n"),
+            _ => {}
+        }
+    }
+    if r.chance(1, 2) {
+        s.push('\n');
+    }
+    s.into_bytes()
+}
+
+fn c20_case(r: &mut Rng) -> CliCase {
+    let vnames = [("h264", H264), ("H264", H264), ("h.264", H264), ("avc", H264), ("h265", H265), ("hevc", H265), ("h.265", H265), ("av1", AV1), ("AV1", AV1), ("vp9", VP9)];
+    let anames = [("aac", 1u8), ("aac-lc", 1), ("aac-main", 2), ("aac-ssr", 3), ("aac-ltp", 4), ("aac-he", 5), ("aac-hev2", 6), ("opus", 7), ("OPUS", 7)];
+    let which = r.below(10);
+    if which == 0 || which == 1 {
+        // info on arbitrary / well-formed contents
+        let mut c = CliCase { cmd: "info".into(), json: r.chance(1, 2), verbose: r.chance(1, 4), ..Default::default() };
+        if r.chance(1, 2) {
+            let o = GenOpts { hostile_pct: 0, consuming: false, max_video: 4, max_audio: 4, ..Default::default() };
+            let h = gen_history(r, &o);
+            let (_ex, sink) = run(&h, &ExecOpts::default());
+            let b = sink.bytes();
+            if b.len() >= 8 {
+                c.info = Some(FileSpec { exists: true, content: b });
+                c.intent = "valid".into();
+                return c;
+            }
+        }
+        let content = match r.below(6) {
+            0 => Vec::new(),
+            1 => r.bytes_range(1, 64),
+            2 => {
+                // size fields 0..7 and huge sizes
+                let mut v = Vec::new();
+                for _ in 0..r.range(1, 6) {
+                    let sz = *r.pick(&[0u32, 1, 2, 7, 8, 9, 16, u32::MAX, 1 << 31]);
+                    v.extend_from_slice(&sz.to_be_bytes());
+                    v.extend_from_slice(r.pick(&[b"ftyp", b"moov", b"mdat", b"\xff\xfe\x00\x01"]).as_slice());
+                    let n = r.range(0, 12) as usize;
+                    v.extend_from_slice(&r.bytes(n));
+                }
+                v
+            }
+            3 => {
+                let o = GenOpts { hostile_pct: 0, consuming: false, max_video: 3, max_audio: 3, ..Default::default() };
+                let h = gen_history(r, &o);
+                let (_ex, sink) = run(&h, &ExecOpts::default());
+                let b = sink.bytes();
+                let cut = r.usize_below(b.len().max(1));
+                b[..cut].to_vec()
+            }
+            4 => vec![0u8; r.range(8, 200) as usize],
+            _ => {
+                let mut v = vec![0, 0, 0, 8];
+                v.extend_from_slice(b"free");
+                v.extend(std::iter::repeat(1u8).take(r.range(0, 7) as usize));
+                v
+            }
+        };
+        c.info = Some(FileSpec { exists: r.chance(9, 10), content });
+        c.intent = "arbitrary".into();
+        return c;
+    }
+    if which == 2 || which == 3 {
+        let mut c = CliCase { cmd: "validate".into(), json: r.chance(1, 2), verbose: r.chance(1, 4), ..Default::default() };
+        let mk = |r: &mut Rng| -> FileSpec {
+            match r.below(8) {
+                0 => FileSpec { exists: false, content: vec![] },
+                1 => FileSpec { exists: true, content: vec![] },
+                2 => FileSpec { exists: true, content: b"  \n\t ".to_vec() },
+                3 => FileSpec { exists: true, content: b"abc".to_vec() },
+                4 => FileSpec { exists: true, content: b"00 11 zz".to_vec() },
+                5 => FileSpec { exists: true, content: vec![0xff, 0xfe, 0x00, 0x80, 0x81] },
+                _ => {
+                    let d = r.bytes_range(1, 40);
+                    FileSpec { exists: true, content: hexify(r, &d) }
+                }
+            }
+        };
+        if r.chance(4, 5) {
+            c.video = Some(mk(r));
+        }
+        if r.chance(1, 2) {
+            c.audio = Some(mk(r));
+        }
+        c.intent = "arbitrary".into();
+        return c;
+    }
+    // mux
+    let (vn, vc) = *r.pick(&vnames);
+    let frame = video_frame(r, vc, FrameKind::KeyCfg, 12, false);
+    let mut c = CliCase {
+        cmd: "mux".into(),
+        vcodec: if vc == H264 && r.chance(1, 3) { None } else { Some(vn.to_string()) },
+        width: Some(*r.pick(&[320u32, 640, 1280, 1920, 4096])),
+        height: Some(*r.pick(&[240u32, 480, 720, 1080, 2160])),
+        fps: Some(r.pick(&["30", "29.97", "60", "120", "0.5", "24"]).to_string()),
+        json: r.chance(1, 2),
+        verbose: r.chance(1, 3),
+        video: Some(FileSpec { exists: true, content: hexify(r, &frame) }),
+        intent: "valid".into(),
+        ..Default::default()
+    };
+    if r.chance(1, 2) {
+        let (an, ak) = *r.pick(&anames);
+        let a = AudioCfg { kind: ak, rate: *r.pick(&[48_000u32, 44_100, 8_000, 192_000]), channels: r.range(1, 8) as u16 };
+        let af = audio_frame(r, &a, 10);
+        c.acodec = if ak == 1 && r.chance(1, 3) { None } else { Some(an.to_string()) };
+        c.sample_rate = Some(a.rate);
+        c.channels = Some(a.channels as u8);
+        c.audio = Some(FileSpec { exists: true, content: hexify(r, &af) });
+    }
+    if r.chance(1, 3) {
+        c.title = Some(r.pick(&["Test", "", "Ünï — ☃", "a b c", "x=1;y=2"]).to_string());
+    }
+    if r.chance(1, 3) {
+        c.language = Some(crate::gen::hist::langs(r));
+    }
+    // break it in one documented way
+    if r.chance(2, 5) {
+        let reason = match r.below(16) {
+            0 => {
+                c.video.as_mut().unwrap().exists = false;
+                "missing-video-file"
+            }
+            1 => {
+                c.video.as_mut().unwrap().content = b"zz11".to_vec();
+                "invalid-hex"
+            }
+            2 => {
+                c.video.as_mut().unwrap().content = Vec::new();
+                "empty-file"
+            }
+            3 => {
+                c.video.as_mut().unwrap().content = vec![0xff, 0xfe, 0x80, 0x00, 0x01];
+                "binary-file"
+            }
+            4 => {
+                c.video.as_mut().unwrap().content = b"abc".to_vec();
+                "odd-length-hex"
+            }
+            5 => {
+                c.width = Some(*r.pick(&[0u32, 1, 319, 4097, 100_000]));
+                "width-out-of-range"
+            }
+            6 => {
+                c.height = Some(*r.pick(&[0u32, 239, 2161, 70_000]));
+                "height-out-of-range"
+            }
+            7 => {
+                c.fps = Some(r.pick(&["0", "-1", "120.5", "nan", "inf", "1e9"]).to_string());
+                "fps-out-of-range"
+            }
+            8 => {
+                c.width = None;
+                "missing-width"
+            }
+            9 => {
+                c.video = None;
+                "no-video-input"
+            }
+            10 if c.audio.is_some() => {
+                c.sample_rate = Some(*r.pick(&[0u32, 192_001, u32::MAX]));
+                "sample-rate-out-of-range"
+            }
+            11 if c.audio.is_some() => {
+                c.channels = Some(*r.pick(&[0u8, 9, 255]));
+                "channels-out-of-range"
+            }
+            12 if c.audio.is_some() => {
+                c.audio.as_mut().unwrap().content = b"00 11 22 33 44 55 66 77".to_vec();
+                "invalid-audio-frame"
+            }
+            13 if c.audio.is_some() => {
+                c.audio.as_mut().unwrap().exists = false;
+                "missing-audio-file"
+            }
+            14 => {
+                let d = video_frame(r, vc, FrameKind::Delta, 8, false);
+                c.video.as_mut().unwrap().content = hexify(r, &d);
+                "first-frame-not-a-config-keyframe"
+            }
+            _ => {
+                c.video.as_mut().unwrap().content = b"   \n ".to_vec();
+                "whitespace-only"
+            }
+        };
+        c.intent = format!("invalid:{}", reason);
+    }
+    c
+}
+
+pub fn eval_case2(prop: &str, case: &Case, obs: &mut Obs) -> Vec<Violation> {
+    match (prop, case) {
+        ("C12", Case::Hist { h, .. }) => {
+            let (ex, _s) = run(h, &ExecOpts { render_errors: true, ..Default::default() });
+            obs.nontrivial(h.hash());
+            obs.sample(format!("{} => {:?}", h.brief(), ex.results.iter().take(8).map(|r| r.brief()).collect::<Vec<_>>()));
+            obs.set("cells", h.cfg.cell());
+            mon::c12::check_exec(h, &ex, obs)
+        }
+        ("C12", Case::Frag { h, .. }) => {
+            let ex = run_frag(h, &ExecOpts::default());
+            obs.nontrivial(h.hash());
+            obs.sample(h.brief());
+            mon::c12::check_fexec(h, &ex, obs)
+        }
+        ("C12", Case::Free(op)) => {
+            let ps = mon::c12::run_free(op, obs);
+            obs.nontrivial(case.hash());
+            obs.sample(case.brief());
+            ps.into_iter().map(|(name, m, l)| mon::c12::panic_violation(&name, &m, &l, &case.brief())).collect()
+        }
+        ("C13", Case::FaultAll { h, level }) => {
+            obs.evaluations -= 1; // counted per fault run inside
+            obs.sample(h.brief());
+            obs.set("cells", h.cfg.cell());
+            mon::c13::check_all(h, *level, obs).into_iter().map(|(v, f)| Violation { detail: format!("{} [fault: {}]", v.detail, serde_json::to_string(&f).unwrap_or_default()), ..v }).collect()
+        }
+        ("C13", Case::Fault { h, fault }) => match mon::c13::reference(h) {
+            Some(r) => {
+                obs.evaluations -= 1;
+                mon::c13::check_one(h, fault, &r, obs)
+            }
+            None => vec![],
+        },
+        ("C14", Case::Enum { what, lo, hi }) => {
+            obs.evaluations -= 1;
+            let mut out: Vec<Violation> = Vec::new();
+            let add = |vs: Vec<Violation>, out: &mut Vec<Violation>| {
+                for v in vs {
+                    if !out.iter().any(|x| x.sig == v.sig) {
+                        out.push(v);
+                    }
+                }
+            };
+            match what.as_str() {
+                "ab5" | "ab3" => {
+                    let alpha: &[u8] = if what == "ab5" { &mon::c14::AB5 } else { &mon::c14::AB3 };
+                    for i in *lo..*hi {
+                        let s = mon::c14::nth_string(alpha, i);
+                        let vs = mon::c14::check_bytes(&s, obs);
+                        if crate::model::basic::next_start_code(&s, 0).is_some() {
+                            obs.nontrivial(crate::util::mix(crate::util::fnv(&s), s.len() as u64));
+                        }
+                        add(vs, &mut out);
+                    }
+                    obs.count(&format!("enumerated:{}", what), hi - lo);
+                    if *lo == 0 {
+                        obs.sample(format!("all strings #{}..#{} over {:02x?} in shortlex order, e.g. {:02x?}", lo, hi, alpha, mon::c14::nth_string(alpha, hi - 1)));
+                    }
+                }
+                _ => {
+                    let mut r = Rng::new(crate::util::mix(0xC14, *lo));
+                    for _ in *lo..*hi {
+                        let (s, vs) = mon::c14::constructive(&mut r, obs);
+                        obs.nontrivial(crate::util::fnv(&s));
+                        add(vs, &mut out);
+                    }
+                }
+            }
+            out
+        }
+        ("C14", Case::Adts { protection_absent, delta, lo, hi }) => {
+            obs.evaluations -= 1;
+            obs.count("enumerated:adts", (*hi - *lo) as u64);
+            mon::c14::check_adts(*protection_absent, *delta, *lo, *hi, obs)
+        }
+        ("C16", Case::Hist { h, .. }) => {
+            let (ex, sink) = run(h, &ExecOpts { casts: true, ..Default::default() });
+            if ex.any_panic() {
+                obs.inconclusive += 1;
+                obs.count("histories_ending_in_panic(C12's business)", 1);
+                return vec![];
+            }
+            let (bytes, events) = sink.with(|s| (s.bytes.clone(), s.events.clone()));
+            let a = Analysis::new(h, &ex, &bytes, &events);
+            obs.nontrivial(h.hash());
+            obs.sample(format!("{} => {:?}", h.brief(), ex.results.iter().map(|r| r.brief()).collect::<Vec<_>>()));
+            let mut out = mon::c16::check_file(&a, obs);
+            let results = &ex.results;
+            out.extend(mon::c16::check_casts(&ex.casts, &|i| results.get(i).map(|r| r.is_ok()).unwrap_or(false), &|i| h.ops.get(i).map(|o| o.brief()).unwrap_or_default(), obs));
+            out
+        }
+        ("C16", Case::Frag { h, .. }) => {
+            let ex = run_frag(h, &ExecOpts { casts: true, ..Default::default() });
+            if ex.results.iter().any(|r| matches!(r, FRes::Panic { .. })) {
+                obs.inconclusive += 1;
+                obs.count("histories_ending_in_panic(C12's business)", 1);
+                return vec![];
+            }
+            obs.nontrivial(h.hash());
+            obs.sample(h.brief());
+            let mut out = mon::c16::check_frag(h, &ex, obs);
+            let results = &ex.results;
+            out.extend(mon::c16::check_casts(
+                &ex.casts,
+                &|i| matches!(results.get(i), Some(FRes::Ok) | Some(FRes::Seg(Some(_))) | Some(FRes::Bytes(_))),
+                &|i| h.ops.get(i).map(|o| o.brief()).unwrap_or_default(),
+                obs,
+            ));
+            out
+        }
+        ("C17", Case::Threads { hs, threads, seed }) => {
+            obs.nontrivial(case.hash());
+            obs.sample(case.brief());
+            mon::c17::check_threads(hs, *threads, *seed, obs)
+        }
+        ("C17", Case::Hist { h, .. }) => {
+            obs.nontrivial(h.hash());
+            obs.sample(h.brief());
+            let mut out = mon::c17::check_sinks_and_moves(h, "/verif/.target/tmp", obs);
+            out.extend(mon::c17::check_paths(h, obs));
+            let d = mon::c17::reference(h).digest();
+            *obs.counters.entry("digest_xor".into()).or_insert(0) ^= d;
+            out
+        }
+        ("C18", Case::Enum { what, lo, hi }) => {
+            obs.evaluations -= 1;
+            let mut out: Vec<Violation> = Vec::new();
+            let add = |vs: Vec<Violation>, out: &mut Vec<Violation>| {
+                for v in vs {
+                    if !out.iter().any(|x| x.sig == v.sig) {
+                        out.push(v);
+                    }
+                }
+            };
+            if what == "langs" {
+                for i in *lo..*hi {
+                    let code: String = [(i / 676) % 26, (i / 26) % 26, i % 26].iter().map(|&c| (b'a' + c as u8) as char).collect();
+                    add(mon::c18::check_lang(&code, false, obs), &mut out);
+                    add(mon::c18::check_lang(&code, true, obs), &mut out);
+                    obs.nontrivial(crate::util::fnv(code.as_bytes()));
+                }
+                obs.count("enumerated:langs", hi - lo);
+                if *lo == 0 {
+                    obs.sample("language codes aaa, aab, ... (progressive: every track's mdhd; fragmented: init segment mdhd)".to_string());
+                }
+            } else {
+                let stride: u64 = what.split('/').nth(1).and_then(|s| s.parse().ok()).unwrap_or(1);
+                let mut r = Rng::new(crate::util::mix(0xC18, *lo));
+                for k in *lo..*hi {
+                    let day = k * stride;
+                    if day >= DAYS_TO_9999 {
+                        break;
+                    }
+                    for sec in [0u64, 86_399, r.below(86_400)] {
+                        let t = day * 86_400 + sec;
+                        add(mon::c18::check_date(t, obs), &mut out);
+                        obs.nontrivial(t);
+                    }
+                    obs.count("enumerated:days", 1);
+                }
+                if *lo == 0 {
+                    obs.sample(format!("every {}-th day from 1970-01-01 at 00:00:00, 23:59:59 and a random second; e.g. {} -> {}", stride, 951_782_400u64, crate::model::basic::iso8601(951_782_400)));
+                }
+            }
+            out
+        }
+        ("C18", Case::Hist { h, .. }) => {
+            let (ex, sink) = run(h, &ExecOpts::default());
+            if ex.any_panic() {
+                obs.inconclusive += 1;
+                return vec![];
+            }
+            let bytes = sink.bytes();
+            let a = Analysis::new(h, &ex, &bytes, &[]);
+            let mut out = mon::c18::check_meta(&a, obs);
+            let mut h0 = h.clone();
+            h0.cfg.meta = false;
+            h0.cfg.path &= !4;
+            h0.cfg.title = None;
+            h0.cfg.ctime = None;
+            h0.cfg.lang = None;
+            let (ex0, sink0) = run(&h0, &ExecOpts::default());
+            let b0 = sink0.bytes();
+            let a0 = Analysis::new(&h0, &ex0, &b0, &[]);
+            out.extend(mon::c18::check_isolation(&a, &a0, obs));
+            if a.finished_ok() {
+                obs.nontrivial(h.hash());
+                obs.sample(format!("{} title={:?} ctime={:?} lang={:?}", h.brief(), h.cfg.title.as_ref().map(|t| t.chars().take(20).collect::<String>()), h.cfg.ctime, h.cfg.lang));
+            }
+            obs.set("presence_combinations", format!("title={} ctime={} lang={}", h.cfg.title.is_some(), h.cfg.ctime.is_some(), h.cfg.lang.is_some()));
+            out
+        }
+        ("C19", Case::Hist { h, .. }) => {
+            let (ex, sink) = run(h, &ExecOpts::default());
+            if ex.any_panic() || ex.first_ok_finish(h).is_none() {
+                obs.inconclusive += ex.any_panic() as u64;
+                return vec![];
+            }
+            let bytes = sink.bytes();
+            let exp = mon::c19::Expect { width: h.cfg.width, height: h.cfg.height, movie_timescale: Some(1000), media_timescale: 90_000, n_tracks: 1 + h.cfg.audio_effective().is_some() as usize };
+            obs.nontrivial(crate::util::fnv(format!("{} {}x{} {:?}", h.cfg.cell(), h.cfg.width, h.cfg.height, h.cfg.audio).as_bytes()));
+            obs.sample(format!("{} {}x{} audio={:?}", h.cfg.cell(), h.cfg.width, h.cfg.height, h.cfg.audio));
+            obs.set("cells", h.cfg.cell());
+            mon::c19::check_stream(&bytes, "file", Some(&exp), obs)
+        }
+        ("C19", Case::Frag { h, .. }) => {
+            let ex = run_frag(h, &ExecOpts::default());
+            let mut out: Vec<Violation> = Vec::new();
+            for r in &ex.results {
+                let vs = match r {
+                    FRes::Bytes(b) => {
+                        let exp = mon::c19::Expect { width: h.cfg.width, height: h.cfg.height, movie_timescale: None, media_timescale: h.cfg.timescale, n_tracks: 1 };
+                        obs.nontrivial(crate::util::fnv(b));
+                        mon::c19::check_stream(b, "init", Some(&exp), obs)
+                    }
+                    FRes::Seg(Some(b)) => {
+                        obs.nontrivial(crate::util::fnv(b));
+                        mon::c19::check_stream(b, "segment", None, obs)
+                    }
+                    _ => vec![],
+                };
+                for v in vs {
+                    if !out.iter().any(|x| x.sig == v.sig) {
+                        out.push(v);
+                    }
+                }
+            }
+            obs.sample(h.brief());
+            obs.set("init_codecs", format!("{}{}", mon::codec_name(h.cfg.vcodec), if h.cfg.via_builder { " via builder" } else { " via FragmentConfig" }));
+            out
+        }
+        ("C20", Case::Cli(c)) => {
+            obs.sample(c.brief());
+            mon::c20::eval(c, obs)
+        }
+        _ => Vec::new(),
+    }
 }
